@@ -452,6 +452,7 @@ def run_property(prop, harnesses, tier, meta, only=None, workers=None, mem_total
     exit_code = 0
     out_lines = []
     info = {}
+    extra_info = {}
     try:
         scratch.create()
         builds = sorted(set(h.build for h in hs))
@@ -552,6 +553,16 @@ def run_property(prop, harnesses, tier, meta, only=None, workers=None, mem_total
                     except OSError:
                         pass
             results.append(r)
+        # second engine (C14: MIR -> SMT for the 64 KiB accumulator), unless a harness subset was asked for
+        if extra and extra.get("mir2smt") and not only:
+            from . import mir2smt
+            st_, minfo, mlines = mir2smt.run(scratch, VERIF)
+            extra_info["mir2smt"] = minfo
+            out_lines.extend(mlines)
+            if st_ == "violation":
+                exit_code = 1
+            elif st_ == "inconclusive" and exit_code != 1:
+                exit_code = 2
     except Exception as e:  # driver failure is never a pass
         import traceback
         traceback.print_exc()
@@ -564,6 +575,8 @@ def run_property(prop, harnesses, tier, meta, only=None, workers=None, mem_total
     wall = time.time() - t_start
     n_pass = sum(1 for r in results if r["status"] == "pass")
     viol = sum(1 for r in results if r.get("verdict") == "violation")
+    if extra_info.get("mir2smt", {}).get("status") == "violation":
+        viol += len(extra_info["mir2smt"].get("replays", []))
     samples = []
     for h in hs[:6]:
         samples.append({"harness": h.name, "bounds": h.bounds, "sample": h.sample})
@@ -593,6 +606,7 @@ def run_property(prop, harnesses, tier, meta, only=None, workers=None, mem_total
             "exit_code": exit_code,
             "known_findings_listed": [e["key"] for e in open_kf.values()],
             "generated": info if isinstance(info, dict) else {},
+            "second_engine": extra_info,
         },
         "assumptions": meta.get("assumptions", []),
         "wall_s": round(wall, 2),
